@@ -878,7 +878,7 @@ impl Property for C17 {
 		500
 	}
 	fn cases(&self, tier: Tier) -> u64 {
-		tier.pick(1_000_000, 10_000_000)
+		tier.pick(1_600_000, 12_000_000)
 	}
 
 	fn run(&self, tape: &[u32], ctx: &mut Ctx) -> CaseResult {
